@@ -137,6 +137,25 @@ func BuildScaled(fam, unit string, size, n int, tiff []byte) ([]byte, string) {
 		}
 		out = append(out, Box("moov", Box("uuid", meta))...)
 		return append(out, Box("mdat", make([]byte, 64))...), "cr3"
+	case "bmff/cmtTiny", "bmff/preview":
+		out := Ftyp("crx ", "crx ", "isom")
+		var meta []byte
+		meta = append(meta, CR3MetaUUID...)
+		meta = append(meta, Box("CNCV", []byte("CanonCR3_001/00.09.00/00.00.00"))...)
+		if unit == "cmtTiny" {
+			tiny := Box("CMT1", []byte("II*\x00\x08\x00\x00\x00\x00\x00\x00\x00\x00\x00\x00\x00"))
+			meta = append(meta, bytes.Repeat(tiny, n)...)
+		} else {
+			meta = append(meta, Box("CMT1", tiff)...)
+		}
+		out = append(out, Box("moov", Box("uuid", meta))...)
+		out = append(out, Box("uuid", CR3XPacketUUID, []byte("<?xpacket begin='' id='W5M0MpCehiHzreSzNTczkc9d'?><x:xmpmeta xmlns:x=\"adobe:ns:meta/\"></x:xmpmeta><?xpacket end='w'?>"))...)
+		if unit == "preview" {
+			jpg := append([]byte{0xFF, 0xD8}, bytes.Repeat([]byte{0x5A}, L-4)...)
+			jpg = append(jpg, 0xFF, 0xD9)
+			out = append(out, Box("uuid", CR3PreviewUUID, []byte{0, 0, 0, 0, 0, 0, 0, 1}, PRVWBox(jpg, 1620, 1080))...)
+		}
+		return append(out, Box("mdat", make([]byte, 64))...), "cr3"
 	case "bmff/topFree", "bmff/moovKid", "bmff/bigFree", "bmff/bigCmt":
 		out := Ftyp("crx ", "crx ", "isom")
 		free := Box("free", make([]byte, 8))
